@@ -157,8 +157,12 @@ fn plan_run(seed: u64, idx: u64, huge: bool) -> RunPlan {
     let n_other = rng.below(3) as usize;
     let mut decls = Vec::new();
     decls.push(gen::supported(&mut rng, "D0", huge));
+    // sometimes every declaration of the process carries the same identifier (same-named enums in
+    // different modules of one crate): output must depend on the declaration, not on its name
+    let same_ident = rng.chance(1, 3);
     for k in 0..n_other {
-        decls.push(gen::supported(&mut rng, &format!("D{}", k + 1), false));
+        let ident = if same_ident { "D0".to_string() } else { format!("D{}", k + 1) };
+        decls.push(gen::supported(&mut rng, &ident, false));
     }
     // very large declarations: keep the history short
     let big = decls.iter().map(|d| d.n).max().unwrap_or(0);
